@@ -111,6 +111,13 @@ def run_one(cfg, tape, eager_mask=None):
                 return 'exc', (it.state if it else None), e, it
 
 
+# coverage-guided campaign (pkv/fuzz.py): same strategy and oracle driven by
+# libFuzzer through Hypothesis' fuzz_one_input; pokerkit instrumented
+FUZZ = dict(
+    thorough=dict(procs=16, runs=6000, wall=900),
+)
+
+
 def budget(tier):
     if tier == 'quick':
         return dict(examples=3200, wall=100)
